@@ -618,9 +618,31 @@ func init() {
 				cs[i].P["wire"] = int64(i % 2)
 				cs[i].P["attempts"] = 60
 			}
+			// the bootstrap route (c07boot.go): one stored event record altered while
+			// the node is down
+			k := 16
+			if tier == "thorough" {
+				k = 200
+			}
+			bc := dagCases(tier, seed+611953+7, k, k)
+			for i := range bc {
+				bc[i].Kind = "bootstrap"
+				bc[i].Index = len(cs) + i
+				bc[i].P["events"] = int64(30 + (i*17)%60)
+				if bc[i].P["n"] < 2 {
+					bc[i].P["n"] = 2
+				}
+				bc[i].P["maintenance"] = int64((i / 3) % 2)
+			}
+			cs = append(cs, bc...)
 			return cs
 		},
-		Run:            runC07,
+		Run: func(cs CaseSpec) *CaseResult {
+			if cs.Kind == "bootstrap" {
+				return runC07Bootstrap(cs)
+			}
+			return runC07(cs)
+		},
 		PerCaseTimeout: 10 * time.Minute,
 	})
 }
